@@ -246,6 +246,9 @@ def vals_to_hex(vals, shape):
 _FINDER_CACHE = {}
 
 
+_FINDER_STATUS = {}
+
+
 def find_and_replay(scratch, h, where=None):
     """Run one finder harness with concrete playback; replay every distinct counterexample natively.
     Returns the candidate whose native panic location matches `where` (file:line) if there is one,
@@ -254,6 +257,7 @@ def find_and_replay(scratch, h, where=None):
     if key not in _FINDER_CACHE:
         rc, out, wall = run_kani(scratch, [h['name']], 900, playback=True)
         parsed = parse_kani_output(out, [h['name']])[h['name']]
+        _FINDER_STATUS[key] = parsed.get('status')
         tests = [t for t in parsed.get('playback', []) if t['check'] != 'cover']
         cands = []
         seen = set()
@@ -293,12 +297,15 @@ def native_replay(scratch, test_name, hexs):
     return dict(failed=bool(failed), tail=(out[k:] if k >= 0 else out)[-1200:])
 
 
-def find_counterexample(prop, violation, cfg, work):
-    """Bounded per-function finder behind a failed Verus obligation. Never decides anything."""
+def find_counterexample(prop, violation, cfg, work, ran=None):
+    """Bounded per-function finder behind a failed Verus obligation. Never decides anything.
+    `ran` (a list) receives one entry per finder that ran to completion on the function and found nothing, with `covers` = the finder
+    drives exactly this function against its independent reference (its `covers` patterns), not just code in the same file."""
     finders = cfg.get('finders', [])
     fn = violation.get('fn') or ''
     for f in finders:
         if re.search(f['match'], fn):
+            covers = any(re.search(c, fn) for c in f.get('covers', []))
             scratch = make_scratch(work)
             weave(scratch, f.get('files', [f['file']]))
             if f.get('native'):
@@ -309,10 +316,14 @@ def find_counterexample(prop, violation, cfg, work):
                     return dict(harness=f['replay'], failed_check='native sampling finder', input_hex=None,
                                 replay_test=f['replay'], replayed_natively=True, native_output=rep['tail'],
                                 finder_bound=f.get('bound'))
+                if ran is not None and 'test result: ok. 1 passed' in rep['tail']:
+                    ran.append(dict(name=f['replay'], kind='native', bound=f.get('bound'), covers=covers))
                 continue    # nothing found: a later finder may match the same function
             r = find_and_replay(scratch, f, violation.get('where'))
             if r:
                 return r
+            if ran is not None and _FINDER_STATUS.get((scratch, f['name'])) == 'ok':
+                ran.append(dict(name=f['name'], kind='kani', bound=f.get('bound', f.get('shape')), covers=covers))
     return None
 
 
